@@ -1,5 +1,6 @@
 (* h_c32.ml — case handler of the C32 runner (appended after helpers.ml).
    Lines of cases/c32.in:
+     S <old> <scope> <new> <new scope> <ctx sheet> <env> | <tokens>   (see the handler)
      R <old name> <scope | -1> <new name> | <ast atoms...>
    a formula tree as it was before update_defined_name renamed <old name> (scope) to <new name>; answer =
    dump of RenameName.rename (Localize.lower) old scope new tree, the formula field of DefinedNameKind
@@ -106,6 +107,40 @@ let rec dump (e : ast) (acc : string list) : string list =
 let dump_s e = String.concat " " (List.rev (dump e []))
 
 
+(* ---- tokens <-> atoms ------------------------------------------------------------------ *)
+let pref_s p = Printf.sprintf "%s:%s:%s:%s" (zs p.p_row) (zs p.p_col) (bs p.p_abs_row) (bs p.p_abs_col)
+let token_atom = function
+  | TIllegal -> "ILLEGAL" | TIdent s -> "I:" ^ wire_of_text s | TString s -> "S:" ^ wire_of_text s
+  | TNumber n -> "N:" ^ wire_of_text n | TBoolean b -> "B:" ^ bs b | TError e -> "E:" ^ zs e
+  | TCompare op -> "c" ^ cmp_s op | TAddition SAdd -> "+" | TAddition SMinus -> "-"
+  | TProduct PTimes -> "*" | TProduct PDivide -> "/" | TPower -> "^" | TLParen -> "(" | TRParen -> ")"
+  | TColon -> ":" | TSemicolon -> ";" | TLBracket -> "[" | TRBracket -> "]" | TLBrace -> "{" | TRBrace -> "}"
+  | TComma -> "," | TBang -> "!" | TPercent -> "%" | TAnd -> "&" | TAt -> "@" | TSpill -> "#" | TBackslash -> "\\"
+  | TReference (s, p) -> Printf.sprintf "R:%s:%s" (text_opt s) (pref_s p)
+  | TRange (s, p, q) -> Printf.sprintf "G:%s:%s:%s" (text_opt s) (pref_s p) (pref_s q)
+let atom_token a =
+  let n = String.length a in
+  let rest k = String.sub a k (n - k) in
+  match a with
+  | "ILLEGAL" -> TIllegal | "+" -> TAddition SAdd | "-" -> TAddition SMinus | "*" -> TProduct PTimes
+  | "/" -> TProduct PDivide | "^" -> TPower | "(" -> TLParen | ")" -> TRParen | ":" -> TColon | ";" -> TSemicolon
+  | "[" -> TLBracket | "]" -> TRBracket | "{" -> TLBrace | "}" -> TRBrace | "," -> TComma | "!" -> TBang
+  | "%" -> TPercent | "&" -> TAnd | "@" -> TAt | "#" -> TSpill | "\\" -> TBackslash
+  | _ when n > 2 && a.[1] = ':' ->
+    (match a.[0] with
+     | 'I' -> TIdent (text_of_wire (rest 2)) | 'S' -> TString (text_of_wire (rest 2))
+     | 'N' -> TNumber (text_of_wire (rest 2)) | 'B' -> TBoolean (rest 2 = "1") | 'E' -> TError (zi (rest 2))
+     | 'R' -> (match String.split_on_char ':' (rest 2) with
+               | [s; r; c; ar; ac] -> TReference (opt_text s, mkpref r c ar ac) | _ -> TIllegal)
+     | 'G' -> (match String.split_on_char ':' (rest 2) with
+               | [s; r; c; ar; ac; r2; c2; ar2; ac2] -> TRange (opt_text s, mkpref r c ar ac, mkpref r2 c2 ar2 ac2) | _ -> TIllegal)
+     | _ -> TIllegal)
+  | _ when n > 1 && a.[0] = 'c' -> TCompare (cmp_of (rest 1))
+  | _ -> TIllegal
+
+
+let rec take k l = if k = 0 then ([], l) else match l with x :: r -> let (a, b) = take (k - 1) r in (x :: a, b) | [] -> failwith "take"
+let nm_en = lazy (names_of O)
 let rec split_bar acc = function
   | "|" :: r -> (List.rev acc, r)
   | x :: r -> split_bar (x :: acc) r
@@ -117,4 +152,22 @@ let handle f = match f with
     let (e, rest') = read_ast atoms in
     if rest' <> [] then "badcase-trailing" else
     dump_s (rename lower (text_of_wire old) (opt_z sc) (text_of_wire nw) e)
+  | "S" :: old :: sc :: nw :: nsc :: ctx :: rest ->
+    (* one update_defined_name(old, sc, nw, nsc, _) on a stored formula of sheet ctx: environment BEFORE the update and the
+       real R1C1 lexer's tokens of the stored text before; answer: tokens of RenameName.update_name_in_formula *)
+    let (envf, toks) = split_bar [] rest in
+    (match envf with
+     | n :: r ->
+       let (sh, r) = take (int_of_string n) r in
+       (match r with
+        | k :: r ->
+          let (dn, _) = take (3 * int_of_string k) r in
+          let rec defs = function
+            | name :: s :: fo :: tl -> ((text_of_wire name, opt_z s), text_of_wire fo) :: defs tl
+            | _ -> [] in
+          let env = { pe_sheets = List.map text_of_wire sh; pe_ctx_sheet = text_of_wire ctx; pe_defnames = defs dn; pe_tables = [] } in
+          let out = update_name_in_formula (Lazy.force nm_en) env lower (text_of_wire old) (opt_z sc) (text_of_wire nw) (opt_z nsc) (List.map atom_token toks) in
+          String.concat " " (List.map token_atom (glue true out))
+        | [] -> "badcase-env")
+     | [] -> "badcase-env")
   | _ -> "badcase"
